@@ -194,6 +194,10 @@ def run(chk):
     chk.rule('C15-D', 'no branch that has just established `x is None` subscripts x or reads an attribute of it')
     codelemmas.none_dereference(chk, c, 'C15-D')
 
+    # ---- R: regular-expression results
+    chk.rule('C15-R', 'the result of re.match / re.search is dereferenced (.group / .groups ...) only where it was found to be a match')
+    codelemmas.match_dereference(chk, c, 'C15-R')
+
     # ---- X: constant-index subscripts of the value text on the datatype path
     chk.rule('C15-X', 'on the datatype path (utils, factories, the date/time constructors) every constant-index subscript of '
                       'a text parameter is protected: a length test that forces len > index on every path to it (also as an '
